@@ -221,12 +221,13 @@ func c25B64Method(e *Exec, name string) *ssa.Function {
 // c25RunBody executes fn from its SSA body (what callFunction does when there is no intrinsic).
 func c25RunBody(e *Exec, caller *frame, fn *ssa.Function, args []Value) Value {
 	e.funcsUsed[fn] = true
-	fr := &frame{fn: fn, caller: caller, env: make(map[ssa.Value]Value, 16)}
+	info := e.prog.funcInfo(fn)
+	fr := &frame{fn: fn, caller: caller, env: make([]Value, info.n), idx: info.idx}
 	if caller != nil {
 		fr.depth = caller.depth + 1
 	}
 	for i, p := range fn.Params {
-		fr.env[p] = args[i]
+		fr.env[fr.idx[p]] = args[i]
 	}
 	saved := e.curFrame
 	e.curFrame = fr
